@@ -104,8 +104,10 @@ func zvHFollow(q vrt.ConcInst) bool {
 }
 
 func ZvC01_Heap() {
+	vrt.ConcShapes = 2
 	vrt.ConcCheck("C01", "Heap", zvMkHeap(zvCVals(2), vrt.Int()), vrt.ConcProgram(vrt.ConcShape(), zvHAll), nil, true, false, zvHFollow)
 }
 func ZvC02_Heap() {
+	vrt.ConcShapes = 2
 	vrt.ConcCheck("C02", "Heap", zvMkHeap(zvCVals(2), 0), vrt.ConcProgram(vrt.ConcShape(), zvHSingle), nil, false, true, nil)
 }
